@@ -331,7 +331,54 @@ var timeRe = regexp.MustCompile(`[iM]1[6-9][0-9]{11}`)
 
 func stripTimes(s string) string { return timeRe.ReplaceAllString(s, "T") }
 
+// c10PreparedReads: builder objects created while a key is alive and run after it has expired
+// must not see it (the liveness instant is the moment of the run).
+func c10PreparedReads(db *redka.DB) {
+	_, _ = db.ZSet().AddMany("pz", map[any]float64{"a": 1, "b": 2, "c": 3})
+	_, _ = db.ZSet().AddMany("pz2", map[any]float64{"a": 10, "b": 20})
+	_, _ = db.Set().Add("pe", "a", "b")
+	_ = db.Key().Expire("pz", 250*time.Millisecond)
+	_ = db.Key().Expire("pe", 250*time.Millisecond)
+	byRank := db.ZSet().RangeWith("pz").ByRank(0, -1)
+	byScore := db.ZSet().RangeWith("pz").ByScore(0, 10).Offset(0).Count(10)
+	del := db.ZSet().DeleteWith("pz").ByRank(0, 0)
+	inter := db.ZSet().InterWith("pz", "pz2")
+	union := db.ZSet().UnionWith("pz", "pz2").Dest("pdest")
+	setw := db.Str().SetWith("pe", "v").IfExists()
+	time.Sleep(400 * time.Millisecond)
+	check := func(what string, n int, err error) {
+		sum.Cases++
+		count("prepared_reads")
+		if err == nil && n != 0 {
+			fail("c10-expired-visible", fmt.Sprintf("%s, built while the key was alive and run 150 ms after it had expired, still found %d elements", what, n), nil)
+		}
+	}
+	items, err := byRank.Run()
+	check("ZSet().RangeWith(k).ByRank(0,-1)", len(items), err)
+	items, err = byScore.Run()
+	check("ZSet().RangeWith(k).ByScore(0,10).Offset(0).Count(10)", len(items), err)
+	n, err := del.Run()
+	check("ZSet().DeleteWith(k).ByRank(0,0)", n, err)
+	items, err = inter.Run()
+	check("ZSet().InterWith(k, k2)", len(items), err)
+	n, err = union.Store()
+	if err == nil && n != 2 {
+		fail("c10-expired-visible", fmt.Sprintf("ZSet().UnionWith(k, k2).Dest(d).Store(), built while k was alive and run after it had expired, stored %d elements; k2 alone has 2", n), nil)
+	}
+	out, err := setw.Run()
+	if err == nil && out.Updated {
+		fail("c10-expired-visible", "Str().SetWith(k, v).IfExists(), built while k (a set) was alive and run after it had expired, found the key", nil)
+	}
+}
+
 func runC10Boundary(seed int64, n int) {
+	if xp, err := hx.OpenMem("c10pr"); err == nil {
+		c10PreparedReads(xp.DB)
+		xp.Close()
+	}
+	if len(sum.Failures) > 0 {
+		return
+	}
 	c10PurgeEquivalence(seed)
 	if len(sum.Failures) > 0 {
 		return
